@@ -247,6 +247,8 @@ def check(ctx):
     for i, c in enumerate(cases):
         a = impl[i]
         b = model[i]
+        xf = a.split(";xflags=", 1)[1] if ";xflags=" in a else ""
+        a = a.split(";xflags=", 1)[0]                 # the x* fields are not part of the include model's output
         if have_model:
             pa, pb = PL.canon_panic(a), PL.canon_panic(b)
             ca, cb = canon_line(a, c), canon_line(b, c)
@@ -330,6 +332,14 @@ def check(ctx):
                                      "guards": set(), "model_agrees": agree})
                 else:
                     nontriv += 1
+        # the summary accessors agree with the diagnostics that are stored (at any depth of the include tree)
+        if xf and a.startswith("asg="):
+            fl = dict(kv.split(":") for kv in xf.split(";", 1)[0].split(","))
+            has = "1" if re.search(r"[A-Za-z]+@\d+-\d+", a.split(";semtree=", 1)[1]) else "0"
+            if (fl.get("syn"), fl.get("sem"), fl.get("any")) != ("0", has, has):
+                failures.append({"case": json.dumps(c), "check": "error_accessors",
+                                 "detail": {"flags": fl, "semantic_diagnostics_present": has, "semtree": a.split(";semtree=", 1)[1][:300]},
+                                 "guards": set(), "model_agrees": agree, "replay_how": "oq3-run include (fields semtree= and xflags=)"})
         for k in re.findall(r"(FileNotFound|IOError|PermissionDenied|IncludeNotInGlobalScopeError)@", a):
             kinds[k] = kinds.get(k, 0) + 1
     # recorded witnesses that cannot run in-process with the others
@@ -342,6 +352,10 @@ def check(ctx):
                 C.known(ctx, kf["id"], kf["what"])
             else:
                 ctx.notes.append(f"finding {kf['id']} is stale: witness no longer crashes ({out[:80]})")
+    # generated programs (every statement arm, faults) distributed over include arrangements, against the spliced text
+    from . import incwrap as IW
+    from . import gen_prog as GP
+    IW.through_entry_points(ctx, "C18", GP.gen_programs(ctx.seed + 18, 1500 if ctx.tier == "quick" else 20000), failures, n_quick=1500, n_thorough=20000)
     failures.sort(key=lambda f: len(f["case"]))
     C.decide(ctx, failures, findings)
     ctx.coverage.update({
